@@ -109,7 +109,7 @@ def run_ops(rep, tier):
     ovs()
     names = ["grad", "value_and_grad", "elementwise_grad", "deriv", "jacobian", "make_hvp", "make_jvp_reversemode", "grad_and_aux", "checkpoint"]
     for nm in names:
-        rep.function(f"autograd.differential_operators.{nm}", getattr(D, nm))
+        rep.function(f"autograd.differential_operators.{nm}", getattr(D, nm, None))
     rep.bound("differential operators: vspace(ans).size / iscomplex symbolic (z3); jacobian output/input ranks 0..2 with basis sizes 0..3")
     # ---- grad / value_and_grad / elementwise_grad: symbolic size / iscomplex
     for nm in ("grad", "value_and_grad", "elementwise_grad"):
